@@ -1043,6 +1043,17 @@ func w1C19(h *w1Hist, body *w1Body, v *w1Viol, cfg simrt.Config, completed, sche
 				// a start timeout can only expire if the stream did not become ready
 				// during the whole timeout that precedes the expiry
 				for _, a := range availAt[p] {
+					// a stream created for a publisher that the path then refused (and taken down again
+					// at once) never was "ready" for anybody: the demand goes on waiting
+					refused := false
+					for _, ps := range h.pubs {
+						if ps.path == p && !ps.ok && ps.addCall < a.Seq && a.Seq < ps.addRet {
+							refused = true
+						}
+					}
+					if refused {
+						continue
+					}
 					if a.Seq > sp.startSeq && a.Seq < sp.endSeq && a.T > sp.endT-startTmo {
 						v.add("C19", "timeout-after-ready", "on-demand source of path %q was stopped as 'timed out' at %s although its stream had become available at %s, less than the start timeout (%s) earlier", p, sp.endT, a.T, startTmo)
 					}
@@ -1088,6 +1099,37 @@ func w1C19(h *w1Hist, body *w1Body, v *w1Viol, cfg simrt.Config, completed, sche
 		}
 		if !found {
 			v.add("C19", "timeout-without-demand", "reader %s got 'timed out' on %q but no on-demand start of that path timed out while its request was pending (seq %d..%d)", r.name, r.path, r.addCall, r.addRet)
+		}
+	}
+	// a read request that succeeds was given a stream that had become ready: on a path fed by
+	// publishers only (never always-available, never a pulled source, in any configuration
+	// version) some publisher must have been admitted before the response and not have been
+	// gone before the request was made
+	for _, r := range h.rds {
+		if !r.ok || r.addRet == 0 || r.skip {
+			continue
+		}
+		onlyPublishers := true
+		cs := w1ConfsFor(body, r.path)
+		for _, c := range cs {
+			if c.Source != "publisher" || c.Always {
+				onlyPublishers = false
+			}
+		}
+		if !onlyPublishers || len(cs) == 0 {
+			continue
+		}
+		fed := false
+		for _, ps := range h.pubs {
+			if ps.path != r.path || !ps.ok {
+				continue
+			}
+			if ps.addCall < r.addRet && (ps.removeRet == 0 || ps.removeRet > r.addCall) {
+				fed = true
+			}
+		}
+		if !fed {
+			v.add("C19", "success-without-source", "read request of %s on %q (seq %d..%d) was answered with a stream although no publisher was attached to that path between the request and its answer", r.name, r.path, r.addCall, r.addRet)
 		}
 	}
 	// bounded liveness, only in runs where the scheduler never stalled runnable goroutines
